@@ -7,7 +7,7 @@ package main
 //	alias \t C15 \t <template> \t <op> ; <op> ; … \t <ext> \t <obs> ## <obs> ## …
 //
 // ops: ce | cm <Dyn map> | cs <Dyn arr> | cj <hex> | cr <i> | um <i> <hex> | set <i> K:<hex> <Dyn>
-//      | iak <i> K:<hex> <Dyn> | ex <i> | cl <i> | st <hex>
+//      | iak <i> K:<hex> <Dyn> | ex <i> | cl <i> | st <hex> | imp <hex> (next line of one long-lived importer)
 // obs: e=<class|-> | proto=<Val> | <Val> ;; <Val> ;; …
 
 import (
@@ -38,7 +38,9 @@ func genC15(cw *caseWriter, seed uint64, tier string) {
 	if tier == "thorough" {
 		n = 20000
 	}
-	jsons := []string{`{"a":1}`, `{"a":"x"}`, `{"b":"AQI=","s":5,"new":{"q":1}}`, `{"s":"t","a":2,"p":{"zz":1,"aa":[1]}}`, `{`, `{"a":7,"a":8}`, `{"c_string":1,"c_numeric":"2","c_boolean":1}`, `{}`}
+	jsons := []string{`{"a":1}`, `{"a":"x"}`, `{"b":"AQI=","s":5,"new":{"q":1}}`, `{"s":"t","a":2,"p":{"zz":1,"aa":[1]}}`, `{`, `{"a":7,"a":8}`, `{"c_string":1,"c_numeric":"2","c_boolean":1}`, `{}`,
+		// rejected after members were stored: a later column fails to convert, truncated, trailing content
+		`{"s":"kept?","new":[1],"a":"x"}`, `{"b":"AQI=","extra":1`, `{"a":3,"s":"u"} trailing`, `{"s":"w","b":"!notbase64"}`}
 	keys := []string{"a", "b", "s", "p", "new", "c_string", "c_numeric", ""}
 	vals := []func() interface{}{func() interface{} { return 5 }, func() interface{} { return "v" }, func() interface{} { return nil }, func() interface{} { return []byte{9} },
 		func() interface{} { return json.Number("1.5") }, func() interface{} { return "notanumber" }, func() interface{} { return []interface{}{1, "z"} }}
@@ -49,20 +51,52 @@ func genC15(cw *caseWriter, seed uint64, tier string) {
 		var ops, obs []string
 		ext := map[string]string{}
 		steps := 2 + r.intn(39)
+		// one long-lived importer of the template over lines fixed in advance; rows it hands out stay live
+		var queue []string
+		var feed bytes.Buffer
+		for j := 0; j < steps; j++ {
+			q := pick(r, jsons)
+			queue = append(queue, q)
+			feed.WriteString(q + "\n")
+		}
+		longImp := t.GetImporter(&feed)
 		for s := 0; s < steps; s++ {
 			var op string
 			errc := "-"
+			fresh := ""
 			pickRow := func() int {
 				if len(rows) == 0 {
 					return -1
 				}
 				return r.intn(len(rows))
 			}
-			k := r.intn(11)
-			if len(rows) == 0 && k > 4 {
+			k := r.intn(13)
+			if len(rows) == 0 && k > 4 && k < 11 {
 				k = 0
 			}
 			switch k {
+			case 11, 12:
+				js := queue[0]
+				queue = queue[1:]
+				extForJSON([]byte(js), ext)
+				op = "imp " + hxs(js)
+				if !longImp.Import() {
+					errc = "io"
+					break
+				}
+				nr, err := longImp.GetRow()
+				if err != nil {
+					errc = classifyLine(err)
+				} else {
+					rows = append(rows, nr)
+				}
+				// what the same text gives on its own
+				if fr, ferr := t.CreateRow(js); ferr == nil {
+					extForValue(fr, ext)
+					fresh = valStr(fr)
+				} else {
+					fresh = "ERR"
+				}
 			case 0:
 				rows = append(rows, t.CreateRowEmpty())
 				op = "ce"
@@ -174,6 +208,9 @@ func genC15(cw *caseWriter, seed uint64, tier string) {
 			}
 			if len(rows) == 0 {
 				sb.WriteString("none")
+			}
+			if fresh != "" {
+				sb.WriteString(" | fresh=" + fresh)
 			}
 			obs = append(obs, sb.String())
 			cw.count("alias:" + strings.SplitN(op, " ", 2)[0])
